@@ -155,6 +155,16 @@ def r15_5(ctx):
                         base = strip_transparent(base)["recv"]
                     if (field_path(strip_transparent(base)) or "").endswith(".body"):
                         in_iter += 1
+        # ... or in the body of a `for` loop over module.body
+        from .c16 import _is_for_loop
+        for n in walk(hb["body"]):
+            if _is_for_loop(n) and any(x.get("k") == "MethodCall" and x.get("callee") == ps["path"] for x in walk(n["arms"][0]["body"])):
+                it = strip_transparent(n["scrut"])["args"][0] if strip_transparent(n["scrut"]).get("args") else None
+                base = it
+                while base is not None and strip_transparent(base).get("k") == "MethodCall":
+                    base = strip_transparent(base)["recv"]
+                if base is not None and (field_path(strip_transparent(base)) or "").endswith(".body"):
+                    in_iter += 1
         r.ob("pre-pass scans the module head and every top-level item", direct >= 2 and in_iter >= 1, C.mloc(hb, hb),
              "%d call(s) of the pragma search, %d inside an iteration over module.body" % (direct, in_iter))
     return r
